@@ -195,6 +195,18 @@ EXPLICIT = [
     (["Struct", [["k", B], ["x", ["ProcessXor", ["this", "k"], ["CString", "utf8"]]]]], {}),
     (["NullTerminated", ["GreedyRange", ["name", "Int16ub"]], tag(b"\x00"), True, False, False], {}),
     (["Hex", ["name", "VarInt"]], {}), (["HexDump", ["Prefixed", B, ["name", "GreedyBytes"]]], {}),
+    # values of the library's own result types (bytes / str subclasses, tuples, containers) flowing on into other constructs
+    (["Struct", [["blob", ["Hex", ["Prefixed", B, ["name", "GreedyBytes"], False]]], ["x", ["RestreamData", ["this", "blob"], ["name", "Int16ub"]]]]], {}),
+    (["Struct", [["blob", ["HexDump", ["Bytes", 2]]], ["x", ["RestreamData", ["this", "blob"], ["Struct", [["a", B], ["b", ["OneOf", B, [1, 2]]]]]]], ["t", B]]], {}),
+    (["Struct", [["blob", ["Hex", ["Bytes", 2]]], ["x", ["RestreamData", ["this", "blob"], ["name", "Int32ub"]]]]], {}),
+    (["OneOf", ["NamedTuple", "point", "x y", ["Array", 2, B]], [{"t": [1, 2]}, {"t": [0, 0]}]], {}),
+    (["NoneOf", ["NamedTuple", "point", "x y z", ["Struct", [["x", B], ["y", B], ["z", B]]]], [{"t": [0, 0, 0]}]], {}),
+    (["ExprValidator", ["NamedTuple", "pair", "a b", ["Array", 2, B]], ["bin", "==", ["obj", 0], 1]], {}),
+    (["OneOf", ["Array", 2, B], [[1, 2], [3, 4]]], {}), (["NoneOf", ["Sequence", [[None, B], [None, ["name", "Int16ub"]]]], [[0, 0]]], {}),
+    (["OneOf", ["Hex", ["Bytes", 2]], [tag(b"ab")]], {}), (["OneOf", ["Enum", B, [["a", 1], ["b", 2]]], ["a"]], {}), (["OneOf", ["PascalString", B, "utf8"], ["ok", "%s", "%d%d"]], {}),
+    (["Struct", [["k", ["Hex", ["Bytes", 2]]], ["x", ["ProcessXor", ["this", "k"], ["Bytes", 4]]]]], {}),
+    (["Struct", [["e", ["Enum", B, [["a", 1], ["b", 2]]]], ["x", ["Switch", ["this", "e"], [["a", B], ["b", ["name", "Int16ub"]]], None]]]], {}),
+    (["Struct", [["r", ["RawCopy", ["Hex", ["Bytes", 2]]]], ["c", ["Checksum", B, "sum8", ["this", "r", "data"]]], ["c2", ["Checksum", B, "sum8", ["this", "r", "value"]]]]], {}),
     (["Struct", [["e", ["Enum", ["name", "VarInt"], [["a", 1]]]], ["f", ["FlagsEnum", ["name", "Int24ul"], [["x", 1]]]], ["m", ["Mapping", B, [["p", 0]]]]]], {}),
 ]
 
